@@ -1,11 +1,34 @@
 (* C03 - Every produced array is a well-formed Arrow array of the declared field. *)
-From Verif Require Import Builder Builder_proofs Bits_proofs.
+From Verif Require Import Builder Builder_proofs Bits_proofs Refine_proofs Wf_proofs.
 
 (* Full-strength statement, evaluated on every case as RunC01.oracle (wf_batch on the
    implementation's arrays, all data types): *)
 Definition C03_full : Prop :=
   forall fields recs arrs, to_marrow fields recs = Some (Ok arrs) ->
     wf_batch true fields arrs (length recs) = true.
+
+(* C03_full for the modelled core (Boolean, 8 integer types, Utf8 / LargeUtf8, List / LargeList,
+   Struct; nullable or not; any nesting; every presentation of the records), for schemas whose
+   structs have unique field names and inputs whose text renders to valid UTF-8 (which Rust's str
+   and char guarantee by type): validity bitmaps of the right length with no null in a
+   non-nullable array, stored integers inside their type, offsets starting at 0, monotone, ending
+   at the child length and inside their index type, valid UTF-8 in every slot of a string column,
+   children of exactly the parent's length, child names / nullability as declared *)
+Theorem C03_core_proved : forall fields recs arrs,
+  names_ok (mkField [] (DStruct fields) false) -> Forall text_ok recs ->
+  to_marrow fields recs = Some (Ok arrs) -> wf_batch true fields arrs (length recs) = true.
+Proof. exact (to_marrow_wf true). Qed.
+
+(* every reachable builder state emits a well-formed array of its field (strict and non-strict) *)
+Theorem C03_state_wf : forall strict b f, shape f b -> WfB b -> Inv2 b -> wf_arr strict f (into_array b) = true.
+Proof. exact wf_of_good. Qed.
+
+Theorem C03_values_invariant : forall v, text_ok v -> forall b b', WfB b -> Inv2 b -> push v b = Ok b' -> Inv2 b'.
+Proof. exact push_inv2. Qed.
+
+(* text produced from integers is always valid (the hypothesis text_ok constrains strings, chars and variant names only) *)
+Theorem C03_integer_text_valid : forall z, utf8_valid (print_Z z) = true.
+Proof. exact print_Z_utf8. Qed.
 
 (* a freshly built builder is in the invariant and holds no rows *)
 Theorem C03_build : forall f b, build f = Some b -> WfB b /\ rows b = 0.
@@ -33,5 +56,6 @@ Proof. exact to_marrow_row_count. Qed.
 Theorem C03_non_nullable_refuses_null : forall idx, set_validity None idx false = Err.
 Proof. reflexivity. Qed.
 
+Print Assumptions C03_core_proved.
 Print Assumptions C03_lock_step.
 Print Assumptions C03_one_length.
